@@ -291,3 +291,45 @@ pub fn c20_slice_read_item_from_middle() {
     cover!(true, "end reached");
     sym::forget((a, b, src));
 }
+
+// @h memw=9 prop=C20 tier=quick kind=proof inst="ColumnsRegion<MirrorRegion<u8>>: a NARROWER row pushed as an owned Vec<u8> (and as &Vec<u8>) after a wider row" bounds="target holds a 3-cell row; 1-cell rows follow as Vec<u8> and &Vec<u8>; symbolic cells" desc="the owned forms grow the column set like the slice form and never shrink it: earlier, wider rows stay whole"
+#[cfg_attr(kani, kani::proof, kani::unwind(12))]
+pub fn c20_columns_narrower_owned_row() {
+    let w = sym::bytes::<3>();
+    let n = sym::bytes::<1>();
+    let mut a = CR::default();
+    let mut b = CR::default();
+    let i0 = step!(a, b, w.as_slice(), w.as_slice());
+    let i1 = step!(a, b, vec![n[0]], n.as_slice());
+    let i2 = step!(a, b, &vec![n[0]], n.as_slice());
+    assert!(i0 == 0 && i1 == 1 && i2 == 2, "C20: rows pushed in owned form do not get dense indices");
+    let wide = a.index(i0);
+    assert!(wide.len() == 3 && wide.get(1) == w[1] && wide.get(2) == w[2], "C20: a wider earlier row was damaged by pushing a narrower owned row");
+    assert!(wide.iter().count() == 3, "C20: a wider earlier row iterates short after a narrower owned row was pushed");
+    assert!(a.index(i1).len() == 1 && a.index(i1).get(0) == n[0] && a.index(i2).len() == 1, "C20: narrower owned row reads differently");
+    assert!(used(&a) == used(&b), "C20: owned-form history uses a different amount of storage than the slice-form history");
+    cover!(true, "end reached");
+    sym::forget((a, b));
+}
+
+// @h prop=C20 tier=quick kind=proof inst="OwnedRegion<u8>: an owned Vec<u8> WITH SPARE CAPACITY pushed onto a non-empty region that has no room left" bounds="region filled to its capacity by one 8-byte item (symbolic bytes); then Vec::with_capacity(16) holding 1 symbolic byte, by value" desc="same index and reads as the slice form; the earlier item is not moved or altered whatever the buffers' capacities are"
+#[cfg_attr(kani, kani::proof, kani::unwind(20))]
+pub fn c20_owned_vec_with_spare_capacity() {
+    type OR = OwnedRegion<u8>;
+    let p = sym::bytes::<8>();
+    let x = sym::u8();
+    let mut a = OR::default();
+    let mut b = OR::default();
+    let i0 = step!(a, b, p.as_slice(), p.as_slice());
+    let mut big: Vec<u8> = Vec::with_capacity(16);
+    big.push(x);
+    let i1 = step!(a, b, big, [x].as_slice());
+    assert!(i0 == (0, 8) && i1 == (8, 9), "C20: owned vector with spare capacity gets a different index than the slice form");
+    let first = a.index(i0);
+    let k = sym::usize();
+    sym::assume(k < 8);
+    assert!(first.len() == 8 && first[k] == p[k], "C20: an earlier item was moved or altered by pushing an owned vector with spare capacity");
+    assert!(a.index(i1).len() == 1 && a.index(i1)[0] == x, "C20: owned vector with spare capacity reads differently");
+    cover!(true, "end reached");
+    sym::forget((a, b));
+}
